@@ -218,3 +218,119 @@ where
         Err(e) => Err(e),
     }
 }
+
+// ---------------------------------------------------------------------------------------
+// End-marker arithmetic. The dumb encoder codes the marker's 26 direct bits (and everything
+// else after the match flag) with `encode_bit(&mut 0x400, ..)`, while the decoder reads the
+// direct bits by halving `range`. Both agree because of a 2-adic invariant of `range`:
+//     J(range):  range >= 2^24  and  trailing_zeros(range) >= 10 + t,
+//                t = number of halvings until range < 2^24  ( = floor(log2 range) - 23 )
+// Lemmas decided here on the real code (one step each):
+//   E  any encode_bit at probability 0x400 from any range >= 2^24 leaves range' (before the
+//      shift) a multiple of 2^10 and at most range/2 + 2^10; if the step shifts, J holds after
+//      it. (So J holds after the first shift in a run of 0x400-decisions, and 11 such decisions
+//      - is_rep, four length bits, six slot bits - always contain a shift: range < 2^32 and
+//      each step at least halves it up to 2^10.)
+//   D  from any state with J, encode_bit(0x400, true) is an exact halving, the decoder's
+//      direct-bit step (`get(1)`) tied by code = W - low decodes 1, ranges stay equal, the
+//      tie is re-established and J holds again.
+// By induction J holds at each of the 26 direct bits, hence they are decoded as 1s and the
+// decoder stays in step with the encoder (paper step; the four align bits and the slot / length
+// bits use adaptive cells at 0x400 on both sides: the coupling lemma).
+// ---------------------------------------------------------------------------------------
+fn inv_j(range: u32) -> bool {
+    if range < TOP {
+        return false;
+    }
+    let t = (31 - range.leading_zeros()) - 23; // 1..=8
+    range.trailing_zeros() >= 10 + t
+}
+
+//@ harness props=C04 tier=quick unwind=4 mem_gb=4 timeout=900
+//@ bound: lemma E: ONE real encode_bit at probability 0x400 (either bit) from every (range >= 2^24, low < 2^32, cache, cachesz <= 3): 2^10 | range', range' <= range/2 + 2^10, and J(range') after a shift
+#[cfg_attr(kani, kani::proof)]
+#[cfg_attr(kani, kani::stub(std::fmt::format, crate::verif_common::stub_format))]
+#[cfg_attr(kani, kani::stub(std::io::Error::is_interrupted, crate::verif_common::stub_not_interrupted))]
+pub fn enc_marker_lemma_e() {
+    let mut t = Tape::<24>::new();
+    let range = t.u32();
+    let low = t.u32() as u64;
+    let cache = t.u8();
+    let cachesz = 1 + (t.u8() % 3) as u32;
+    let bit = t.bool();
+    assume(range >= TOP);
+    let mut sink = RecSink::<8>::new();
+    let mut p = 0x400u16;
+    let (r2, ok) = {
+        let mut enc = mk_encoder(&mut sink, range, low, cache, cachesz);
+        let r = enc.encode_bit(&mut p, bit);
+        let ok = r.is_ok();
+        forget(r);
+        (enc.range, ok)
+    };
+    vassert!(ok, "lemma E: encode_bit succeeds");
+    let half_ish = ((range >> 11) as u64) << 10;
+    let pre = if bit { range as u64 - half_ish } else { half_ish };
+    vassert!(pre % 1024 == 0 || bit, "lemma E: a 0-bit at probability 0x400 leaves a multiple of 2^10");
+    vassert!(pre <= (range as u64 >> 1) + 1024, "lemma E: a decision at probability 0x400 at least halves range (up to 2^10)");
+    let shifted = pre < TOP as u64;
+    vassert!(r2 as u64 == if shifted { pre << 8 } else { pre }, "lemma E: at most one shift");
+    if range % 1024 == 0 {
+        vassert!(pre % 1024 == 0, "lemma E: multiples of 2^10 stay multiples of 2^10");
+    }
+    if shifted && pre % 1024 == 0 {
+        vassert!(inv_j(r2), "lemma E: a shift of a multiple of 2^10 establishes the invariant J");
+    }
+    vcover!(shifted && range % 1024 == 0, "shift_establishes_j");
+}
+
+//@ harness props=C04 tier=quick unwind=4 mem_gb=4 timeout=900
+//@ bound: lemma D: from every encoder state with J(range) (low < 2^32, cache, cachesz <= 3) ONE real encode_bit(&mut 0x400, true) vs ONE real decoder direct bit get(1) tied by code = W - low, symbolic next byte
+#[cfg_attr(kani, kani::proof)]
+#[cfg_attr(kani, kani::stub(std::fmt::format, crate::verif_common::stub_format))]
+#[cfg_attr(kani, kani::stub(std::io::Error::is_interrupted, crate::verif_common::stub_not_interrupted))]
+pub fn enc_marker_lemma_d() {
+    let mut t = Tape::<40>::new();
+    let range = t.u32();
+    let low = t.u32() as u64;
+    let cache = t.u8();
+    let cachesz = 1 + (t.u8() % 3) as u32;
+    let w = t.u64();
+    let nb = t.u8();
+    assume(inv_j(range));
+    // encoder interval after coding a 1 at probability 0x400
+    let bound = ((range >> 11) as u64) << 10;
+    let lo1 = low + bound;
+    let r1 = range as u64 - bound;
+    assume(w >= lo1 && w < lo1 + r1);
+    let code = (w - low) as u32;
+    let mut sink = RecSink::<8>::new();
+    let mut p = 0x400u16;
+    let (e_range, e_low) = {
+        let mut enc = mk_encoder(&mut sink, range, low, cache, cachesz);
+        let r = enc.encode_bit(&mut p, true);
+        forget(r);
+        (enc.range, enc.low)
+    };
+    let mut rd = ArrReader::<1>::new([nb], 1);
+    let (d_val, d_range, d_code, d_ok) = {
+        let mut rc = RangeDecoder::from_parts(&mut rd, range, code);
+        let r = rc.get(1);
+        let (v, ok) = match &r {
+            Ok(v) => (*v, true),
+            Err(_) => (0, false),
+        };
+        forget(r);
+        (v, rc.range, rc.code, ok)
+    };
+    vassert!(bound == (range as u64) >> 1, "lemma D: under J the probability-0x400 split is an exact halving");
+    vassert!(d_ok && d_val == 1, "lemma D: the decoder's direct bit reads the 1 the encoder wrote with probability 0x400");
+    vassert!(e_range == d_range, "lemma D: ranges stay equal");
+    let shifted = r1 < TOP as u64;
+    let w2: u64 = if shifted { ((w - lo1) << 8) | (nb as u64) } else { w - lo1 };
+    vassert!(d_code as u64 == w2, "lemma D: code' = W' - low' (tie re-established)");
+    vassert!(inv_j(e_range), "lemma D: J is re-established");
+    vassert!(rd.pos == if shifted { 1 } else { 0 }, "lemma D: one byte read exactly when the encoder shifts");
+    vcover!(shifted, "direct_bit_with_shift");
+    vcover!(!shifted, "direct_bit_without_shift");
+}
